@@ -17,11 +17,17 @@ Lemma group_hardlink_refuted :
     Some (TNode 0 KGroup [(b "g", TNode 1 KGroup [(b "x", TNode 2 KGroup [])]); (b "h", TNode 1 KGroup [])]).
 Proof. vm_compute. repeat split; try reflexivity. discriminate. Qed.
 
-(* (1a) a hard link to an enclosing group: the reader's own-ancestor check makes Open fail *)
+(* (1a) a hard link to an enclosing group.  With the own-ancestor check as an error (653ef00 .. 8c0b97a)
+   Open failed; now the link is listed as a group without children *)
+Definition cyc_cfg : cfg := {| heap_cap := 256; snod_cap := 32; soft_max := 244; max_depth := 1024;
+                               strict_names := true; canon_group_key := true; rc_rollback_fix := true;
+                               cycle_is_error := true; check_first := true |}.
 Definition h_ancestor_link : list op := [MkGroup (b "/g"); MkGroup (b "/g/h"); HardLink (b "/g/h/up") (b "/g")].
 Lemma ancestor_link_refuted :
   all_ok (snd (go h_ancestor_link)) = true /\ all_ok (snd (sp h_ancestor_link)) = true /\
-  read_tree go_cfg (fst (go h_ancestor_link)) = None.
+  read_tree cyc_cfg (fst (run (step cyc_cfg) (init cyc_cfg) h_ancestor_link)) = None /\
+  read_tree go_cfg (fst (go h_ancestor_link)) =
+    Some (TNode 0 KGroup [(b "g", TNode 1 KGroup [(b "h", TNode 2 KGroup [(b "up", TNode 1 KGroup [])])])]).
 Proof. vm_compute. repeat split; reflexivity. Qed.
 
 (* (1b) fw.groups does not know the second path: creating under it is refused *)
@@ -86,7 +92,7 @@ Qed.
 
 (* ---------------------------------------------------------------- with the three candidate repairs switched on *)
 Definition fixed_cfg : cfg := {| heap_cap := 256; snod_cap := 32; soft_max := 244; max_depth := 1024;
-                                 strict_names := true; canon_group_key := true; rc_rollback_fix := true; cycle_is_error := true |}.
+                                 strict_names := true; canon_group_key := true; rc_rollback_fix := true; cycle_is_error := false; check_first := true |}.
 Definition gof (h : list op) := run (step fixed_cfg) (init fixed_cfg) h.
 
 Lemma repairs_remove_witnesses :
@@ -103,7 +109,7 @@ Proof. intros c h g names S. apply no_dup_reach. unfold names_ok. rewrite S. ref
 
 (* not_too_deep: with the depth limit at 2, three nested groups cannot be read back *)
 Definition shallow_cfg : cfg := {| heap_cap := 256; snod_cap := 32; soft_max := 244; max_depth := 2;
-                                   strict_names := true; canon_group_key := true; rc_rollback_fix := true; cycle_is_error := true |}.
+                                   strict_names := true; canon_group_key := true; rc_rollback_fix := true; cycle_is_error := false; check_first := true |}.
 Definition h_deep : list op := [MkGroup (b "/a"); MkGroup (b "/a/b"); MkGroup (b "/a/b/c"); MkGroup (b "/a/b/c/d")].
 Lemma too_deep_refuted :
   adm shallow_cfg s_empty h_deep = true /\ all_ok (snd (run (step shallow_cfg) (init shallow_cfg) h_deep)) = true /\
